@@ -212,6 +212,14 @@ def tuple_elt(value: ast.AST, i: int) -> ast.AST:
     return ast.copy_location(node, value) if hasattr(value, "lineno") else node
 
 
+def known_tuple(it: ast.AST) -> ast.AST:
+    """a call the repository tags with the length of the tuple it returns (Repo._tag_tuple_elements) stands for the literal tuple of its elements"""
+    n = getattr(it, "_tuple_len", None)
+    if isinstance(it, ast.Call) and isinstance(n, int) and 1 <= n <= 8:
+        return ast.copy_location(ast.Tuple(elts=[tuple_elt(it, i) for i in range(n)], ctx=ast.Load()), it)
+    return it
+
+
 FALL, RET, BRK, CONT = "fall", "ret", "break", "continue"
 
 
@@ -420,7 +428,7 @@ class Walker:
                 if len(node.generators) != 1 or node.generators[0].ifs or node.generators[0].is_async:
                     return self.generic_visit(node)
                 g = node.generators[0]
-                it = self.visit(g.iter)
+                it = known_tuple(self.visit(g.iter))
                 if isinstance(it, ast.Call) and attr_chain(it.func) == "zip" and it.args and not it.keywords and all(isinstance(a, (ast.List, ast.Tuple)) for a in it.args) \
                         and len({len(a.elts) for a in it.args}) == 1:
                     it = ast.Tuple(elts=[ast.Tuple(elts=[a.elts[i] for a in it.args], ctx=ast.Load()) for i in range(len(it.args[0].elts))], ctx=ast.Load())
